@@ -1449,9 +1449,10 @@ def gen_callers_dispatch(rng, quick):
     cases = []
     for w in range(0, 33):
         for selfmade in (False, True):
-            own = selfmade and w in (8, 16, 32)
-            if own:
-                shapes = [("wbp",)]
+            ownw = selfmade and w in (8, 16, 32)
+            if ownw:
+                # created_by is only a string: besides the writer's own layout ("wbp") a file naming fastparquet may hold any runs
+                shapes = [("wbp",), ("rle",), ("bp",)] + ([("rle", "bp", "rle")] if w <= 24 else [])
             elif w == 0:
                 shapes = [("rle",), ("bp",)]          # (width 0: the readers must not enter the native decoder at all)
             elif w > 24:
@@ -1459,10 +1460,11 @@ def gen_callers_dispatch(rng, quick):
             else:
                 shapes = [("rle",), ("bp",), ("rle", "bp", "rle")]
             for shape in shapes:
+                own = ownw and shape == ("wbp",)
                 for optional in (False, True):
                     for n in ((9, 40) if quick else (1, 8, 9, 17, 40, 200)):
                         # largest index: a dictionary has at most 2^31 - 1 entries; fastparquet's own codes are signed
-                        m = (1 << (w - 1)) - 1 if own else min((1 << w) - 1, (1 << 31) - 1)
+                        m = (1 << (w - 1)) - 1 if ownw else min((1 << w) - 1, (1 << 31) - 1)
                         levels = [1] * n if not optional else [0 if (i % 4 == 1) else 1 for i in range(n)]
                         nval = sum(levels)
                         ext = [m, 0, (1 << max(min(w - 2, 29), 0)) if w else 0]
@@ -1488,7 +1490,9 @@ def gen_callers_dispatch(rng, quick):
                         enc = ["bp_enc", w, want] if own else ["hyb_enc", w, runs]
                         base = {"w": w, "n": n, "optional": optional, "stream": "main", "enc": enc, "trail": False,
                                 "selfmade": selfmade, "wform": own}
-                        meta = {"want": want, "levels": levels, "shape": "+".join(shape)}
+                        # core._is_one_bitpacked_run: the block is ONE bit-packed run holding at least the page's values
+                        one_run = len(runs) == 1 and runs[0][0] == "bp"
+                        meta = {"want": want, "levels": levels, "shape": "+".join(shape), "one_run": one_run}
                         if selfmade or w == 0:
                             cases.append(dict(base, fn="page_v1_dict", meta=dict(meta)))
                             cases.append(dict(base, fn="page_v2_dict", nval=nval, use_cat=False, meta=dict(meta)))
